@@ -25,6 +25,23 @@ add("C02", "model_checking",
     "bounded-exhaustive enumeration of programs x calls on the real implementation vs a reference model (stateless explicit-state exploration, depth 1)",
     "DESIGN.md section 5 C02")
 
+add("C01", "model_checking",
+    "Every body entered during any call of every program of the static, delegating (call_next / f.next / call_next on every "
+    "other value / variants / mixins / bound methods) and value-dependent families is checked by an in-body monitor against "
+    "the method's own declaration; the program and call spaces are enumerated completely up to the stated bounds.",
+    "Trusted: the reference instance relation (isinstance for classes, equality for literals, bound+predicate for dependent types).",
+    "bounded-exhaustive enumeration of programs x calls on the real implementation with a runtime monitor in every method body",
+    "DESIGN.md section 5 C01")
+
+add("C07", "model_checking",
+    "For every static program of the stated spaces, every delegation mask, flavour (call_next, f.next, call_next on a value the "
+    "caller does not accept) and carrier (function, bound method, variant, mixins), and every argument tuple, the logged chain "
+    "of entered bodies and the end kind equal the reference chain R4.",
+    "Trusted: reference model R1-R4/R6. Abstains where the statement is silent: call_next with other arguments the caller still "
+    "accepts; a parent holding a replaced twin of a signature redefined in a later mixin layer.",
+    "bounded-exhaustive enumeration of programs x delegation masks x calls on the real implementation vs a reference chain",
+    "DESIGN.md section 5 C07")
+
 ALL = [f"C{i:02d}" for i in range(1, 21)]
 REASON_PENDING = "check not built yet in this round (planned: DESIGN.md section 5); not claimed until its machinery exists"
 
